@@ -210,7 +210,6 @@ int main(int argc, char **argv)
    if (argc < 5) { fprintf(stderr, "usage: hx_par conc|solo <seed> <nthreads> <rounds>\n"); return 2; }
    conc = !strcmp(argv[1], "conc"); seed = strtoull(argv[2], NULL, 10); n = atoi(argv[3]); rounds = atoi(argv[4]);
    if (n < 1 || n > 64 || rounds < 1) return 2;
-   alarm(1500);
    th = (thr_t *)calloc((size_t)n, sizeof *th);
    for (i = 0; i < n; i++) { th[i].id = i; th[i].nthreads = n; th[i].rounds = rounds; th[i].seed = seed; th[i].phase = conc ? "conc" : "solo"; }
    if (conc) {
